@@ -14,6 +14,14 @@ from vf import run as hrun
 from vf.core import InfraError
 
 LEVEL = "model_checking"
+READY = True
+TECHNIQUE = ("TLC model checking of Slicing.tla (all rows x threads, condensed-index bijection) + TLC trace validation of the ranges, "
+             "value flags, index positions and integer distance tables recorded from the real kernels (hooks H2, H3)")
+LEVEL_TEXT = ("The slicing recurrences and the condensed index map are model-checked exhaustively for every (rows, threads) pair of the property's "
+              "quantifier; the real library is then driven through the same pairs at all ten slicing sites and TLC validates every recorded range, value "
+              "flag, index position and integer distance table against the specification (exactly-once cover, bijection, metric axioms recomputed by TLC).")
+LEVEL_NOTE = ("Trusts TLC, the H2/H3 hook placement, the harness's double-precision comparison of MT result vs definition (logged as flags), "
+              "ASan/UBSan as memory monitor. Value agreement is sampled data per (site, rows, threads); slicing coverage is exhaustive within bounds.")
 
 
 def _sig(ev):
